@@ -1132,3 +1132,55 @@ PROPS.update({
                 configs=["dev", "rel"], judge=judge_mbi_full,
                 assumptions=["'freed exactly once with the allocation layout' is observed with a tracking global allocator in the harness"]),
 })
+
+
+def _c07_extra(gen):
+    def g(rng, tier):
+        cases, meta = gen(rng, tier)
+        for n in (65535, 65536, 70000):
+            pal = " ".join("[ %d %d %d ]" % (i & 255, (i >> 8) & 255, 7) for i in range(n))
+            cases.append("ctor 8 4096 1 2 3 8 [ 0 [ %s ] ]" % pal)
+        meta["dist"]["huge_palettes"] = 3
+        meta["rule"] += " Palettes of 65535, 65536 and 70000 colours (the 16-bit colour count)."
+        return cases, meta
+    return g
+
+
+PROPS["C07"]["gen"] = _c07_extra(PROPS["C07"]["gen"])
+
+
+# ==========================================================================
+# C08: the parse-side case sets in all four configurations
+# ==========================================================================
+def gen_C08(rng, tier):
+    cases = []
+    dist = {}
+    parts = [("C01", gen_C01), ("C09", gen_C09), ("C02", gen_C02), ("C03", gen_C03), ("C10", gen_C10), ("C13", gen_C13), ("C14", gen_C14),
+             ("C18", gen_C18), ("C19", gen_C19), ("C20", gen_C20)]
+    sub_tier = tier
+    for name, g in parts:
+        cs, _ = g(random.Random(rng.getrandbits(32)), sub_tier)
+        if tier == "quick" and len(cs) > 2500:
+            r2 = random.Random(rng.getrandbits(32))
+            cs = r2.sample(cs, 2500)
+        dist[name] = len(cs)
+        cases += cs
+    return cases, dict(
+        rule="the parse-side case sets of C01, C09, C02, C03, C10, C13, C14, C18, C19 and C20 (see those properties; quick: at most a seeded "
+             "2500 of each), run in four builds of the harness: dev and release profile x default features and --no-default-features; "
+             "every transcript is compared with the model instantiated with the build's profile. distinct_nontrivial = distinct "
+             "(domain, model transcript) pairs.",
+        dist=dist, exhaustive=False)
+
+
+import random  # noqa: E402
+
+PROPS.update({
+    "C08": dict(gen=gen_C08, configs=["dev", "rel", "dev-nb", "rel-nb"], judge=judge_mbi_full, check_model_ub=True,
+                level_note="trusted: Coq kernel; no axioms. The profile dimension is a theorem about the model (Dev = Release for every "
+                           "profile-taking function on its domain); the feature dimension (builder/alloc on or off) cannot be a theorem - "
+                           "cargo features are not modelled - and is decided by the four-configuration differential run alone; what rustc makes of "
+                           "undefined behaviour (known finding F18) is outside any model.",
+                assumptions=["known finding F18 (VBEModeInfo.memory_model) is excluded", "enum-typed header fields are generated in range"]),
+})
+MATCHERS["F18-vbe-memory-model-c08"] = MATCHERS["F18-vbe-memory-model"]
